@@ -12,7 +12,7 @@ Supported subset
   that are only ever `append`ed to (`List <Class>`);
 * expressions: integer constants, `None`, names, `rec.field`, `self.<attr>` (a parameter),
   `self.segments[i].duration` (`segDur i` for a parameter `segDur : Int → Int`),
-  `+ - * //` (`//` is `Int.fdiv`), `int(x)`, comparisons `< <= > >= == !=`, `is None`,
+  `+ - * //` (`//` is `Int.fdiv`), `x >> k` for a constant k (`Int.fdiv x 2^k`), `int(x)`, `max`, `min`, comparisons `< <= > >= == !=`, `is None`,
   `is not None`, `and`, `or`, `not`;
 * statements: assignment / augmented assignment to a name or to `rec.field`, `rec = Class(k=v, ...)`,
   `x = []`, `seg = self.segments[i]` (an alias whose `.duration` is read at the time of the
@@ -217,6 +217,9 @@ class Translator:
                 return f"({a} * {b})", INT
             if isinstance(e.op, ast.FloorDiv):
                 return f"(Int.fdiv {a} {b})", INT
+            if isinstance(e.op, ast.RShift) and isinstance(e.right, ast.Constant) and isinstance(e.right.value, int) \
+                    and e.right.value >= 0:
+                return f"(Int.fdiv {a} ({2 ** e.right.value} : Int))", INT
             raise CannotTranslate(f"operator {type(e.op).__name__}")
         if isinstance(e, ast.Call) and isinstance(e.func, ast.Name) and e.func.id == "int" \
                 and len(e.args) == 1 and not e.keywords:
@@ -376,8 +379,8 @@ class Translator:
                 if r is RAISED:
                     return RAISED
                 if r is not None:
-                    if idx != len(body) - 1:
-                        raise CannotTranslate("return in the middle of a block")
+                    # only an `if` whose condition was folded can return: the rest of the block is dead
+                    self.skipped.extend("dead: " + ast.unparse(x)[:70] for x in body[idx + 1:])
                     return r
                 continue
             if isinstance(s, ast.While) and not s.orelse:
